@@ -12,6 +12,7 @@ A *world* is JSON:
 Searches are finite by construction: rules call strictly lower layers, except the fixed
 recursive idioms (member/append over proper lists), which recurse on a shrinking list.
 """
+import re
 from . import terms as TM
 
 VARNAMES = 'XYZWLABCDEFGH'
@@ -46,10 +47,15 @@ def render(t, names=None):
 
 def fact_source(name, rows):
     out = []
-    for row in rows:
+    for ri, row in enumerate(rows):
         names = {}      # variables are local to the row
         if row:
-            out.append('%s(%s).' % (name, ','.join(render(x, names) for x in row)))
+            text = '%s(%s).' % (name, ','.join(render(x, names) for x in row))
+            if ri % 2 and names:
+                # every other row spells its variables with a leading underscore (named variables like any other)
+                for vn in sorted(set(names.values()), key=len, reverse=True):
+                    text = re.sub(r'\b%s\b' % vn, '_' + vn, text)
+            out.append(text)
         else:
             out.append('%s.' % name)
     return '\n'.join(out)
@@ -152,6 +158,9 @@ class BodyGen:
 
     def leaf(self):
         rng = self.rng
+        if getattr(self, 'lookalikes', False) and rng.random() < 0.04:
+            # the control constructs spelled as quoted atoms (ordinary arity-0 goals), and a numeral as an argument
+            return rng.choice(["'true'", "'!'", 'foo(0)', 'foo(00)'])
         k = rng.random()
         v = self.vars
         if k < 0.5:
@@ -507,7 +516,7 @@ def gen_compile_program(rng, big=False):
             elif k < 0.85:
                 hargs.append('[%s|%s]' % (rng.choice(vs), rng.choice(vs)))
             else:
-                hargs.append(rng.choice(['a', '[]', '42', "'hello world'"]))
+                hargs.append(rng.choice(['a', '[]', '42', "'hello world'", '0', '00', '1', '007', "'true'", "'[]'", "''"]))
         head = name if ar == 0 else '%s(%s)' % (name, ','.join(hargs))
         if rng.random() < 0.15:
             clauses.append('%s.' % head)
